@@ -278,26 +278,46 @@ def dimension(ctx, d3):
 
 
 def volumetric(ctx, d4):
+    """The cached molar volume depends on (chemical, phase, T, P): the validity test must cover phase and TP,
+    and the entry must record a copy of TP and the phase it was computed for."""
     prog = ctx.prog
     c = prog.cls('VolumetricFlowDict', DV)
     for nm in ('output', 'input'):
         f = c.methods[nm]
         ps, _ = run_paths(f.node)
-        okk = len(ps) == 2
-        for p in ps:
-            stale = any(src(t) == 'not TP.in_equilibrium(self.TP)' and taken for t, taken in p.conds if not isinstance(t, str))
-            st = [e for e in p.events if e.kind == 'store' and e.target == 'self.cache[index]']
-            if stale:
-                tup = st[0].extra if st else None
-                if not (tup and tup[0].pretty() == 'self.TP.copy()' and '(*self.TP)' in ' '.join(ast.unparse(f.node).split())):
-                    okk = False
-                # V used for the conversion is the recomputed one
-                if 'self.cache.get' in p.ret.pretty():
-                    okk = False
-            else:
-                if st:
-                    okk = False
-        if okk:
-            d4.ok('VolumetricFlowDict.' + nm, 'V is re-evaluated at the current T,P when the cached condition differs; a copy of TP is cached', f)
+        cons = 'VolumetricFlowDict.' + nm
+        # inputs of the recomputation
+        calls = [n for n in walk_no_nested(f.node) if isinstance(n, ast.Call) and any(isinstance(a, ast.Starred) and src(a.value) == 'self.TP' for a in n.args)]
+        if not calls:
+            d4.fail(cons, 'anchor', 'molar volume evaluation V(*self.TP) not found', f, f.node)
+            continue
+        guards = [n for n in walk_no_nested(f.node) if isinstance(n, ast.If) and any(x is calls[0] for b in n.body for x in ast.walk(b))]
+        if not guards:
+            d4.fail(cons, 'stale-V', 'the molar volume is not re-evaluated under a validity test', f, f.node)
+            continue
+        g = guards[0]
+        lin_names = {}
+        for n in walk_no_nested(f.node):
+            if isinstance(n, ast.Assign) and len(n.targets) == 1 and isinstance(n.targets[0], ast.Name):
+                lin_names[n.targets[0].id] = src(n.value)
+        test = src(g.test)
+        tp_ok = 'in_equilibrium(self.TP)' in test and test.count('not') >= 1
+        # phase: the test compares the current phase with the one stored in the entry
+        phase_names = [k for k, v in lin_names.items() if 'self.phase' in v and 'phase_container' in v]
+        ph_ok = any(re.search(r'\b%s\b\s*!=' % re.escape(k), test) or re.search(r'!=\s*\b%s\b' % re.escape(k), test) for k in phase_names)
+        stores = [n for n in ast.walk(g) if isinstance(n, ast.Assign) and isinstance(n.targets[0], ast.Subscript) and src(n.targets[0].value) == 'self.cache']
+        copy_ok = bool(stores) and isinstance(stores[0].value, ast.Tuple) and src(stores[0].value.elts[0]) == 'self.TP.copy()'
+        rec_phase = bool(stores) and isinstance(stores[0].value, ast.Tuple) and any(src(e) in phase_names for e in stores[0].value.elts)
+        if tp_ok and copy_ok:
+            d4.ok(cons, 'V is re-evaluated when the cached T,P differ; the entry caches a copy of TP', f, g)
         else:
-            d4.fail('VolumetricFlowDict.' + nm, 'stale-V', 'molar volume is not re-evaluated (or the live TP object is cached) when T or P changed', f, f.node)
+            d4.fail(cons, 'stale-V', 'molar volume is not re-evaluated (or the live TP object is cached) when T or P changed', f, g)
+        if ph_ok and rec_phase:
+            d4.ok(cons, 'the entry records the phase it was computed for and a different current phase invalidates it', f, g)
+        else:
+            d4.fail(cons, 'stale-V-phase', 'the cached molar volume depends on the phase, but the validity test / cached entry does not cover it: '
+                    'after a phase change at the same T and P the volume of the old phase is reported', f, g)
+        # on a hit the stored V is used, on a miss the recomputed one: value (*|/) V
+        okk = all(p.ret is not None for p in ps) and len(ps) == 2
+        if not okk:
+            d4.fail(cons, 'paths', 'unexpected control flow', f, f.node)
